@@ -28,6 +28,12 @@ type c05Input struct {
 	Results    bool       `json:"results"` // methods return (int, error)
 	WithResets bool       `json:"withResets"`
 	StubImpl   bool       `json:"stubImpl"`
+	// testify: every method is M(id int, parts ...string) (int, error); the typed Run / RunAndReturn callbacks
+	// check that all parts belong to their own call
+	Variadic bool   `json:"variadic,omitempty"`
+	Unroll   string `json:"unroll,omitempty"` // unset | true | false
+	// one expectation per method, registered up front with a Run callback, serves the calls of all goroutines
+	Shared bool `json:"shared,omitempty"`
 	Threads    [][]ConcOp `json:"threads"`
 	Seed       int        `json:"seed"`
 }
@@ -38,12 +44,18 @@ func init() { register("C05", c05{}) }
 
 func (c05) Generate(c *Ctx) []any {
 	var out []any
-	n := c.Budget(10, 60)
+	n := c.Budget(12, 60)
 	for i := 0; i < n; i++ {
 		in := c05Input{Template: "matryer", Seed: c.Rng.Intn(1 << 30), Results: c.Rng.Intn(2) == 0}
-		if i%5 == 4 {
+		if i%4 == 3 {
 			in.Template = "testify"
 			in.Results = true
+			switch (i / 4) % 3 {
+			case 0:
+				in.Variadic, in.Unroll, in.Shared = true, "true", true
+			case 1:
+				in.Variadic, in.Unroll, in.Shared = true, pick(c.Rng, []string{"unset", "false"}), c.Rng.Intn(2) == 0
+			}
 		}
 		nm := 1 + c.Rng.Intn(3)
 		in.Methods = []string{"Put", "Get", "Del"}[:nm]
@@ -101,7 +113,9 @@ func (c05) Run(c *Ctx, raw json.RawMessage) Case {
 	var src strings.Builder
 	src.WriteString("package store\n\ntype Store interface {\n")
 	for _, m := range in.Methods {
-		if in.Results {
+		if in.Variadic {
+			fmt.Fprintf(&src, "\t%s(id int, parts ...string) (int, error)\n", m)
+		} else if in.Results {
 			fmt.Fprintf(&src, "\t%s(id int, tag string) (int, error)\n", m)
 		} else {
 			fmt.Fprintf(&src, "\t%s(id int, tag string)\n", m)
@@ -119,6 +133,9 @@ func (c05) Run(c *Ctx, raw json.RawMessage) Case {
 	fmt.Fprintf(&cfg, "template: %s\nformatter: gofmt\nforce-file-write: true\nfilename: mocks_test.go\n", in.Template)
 	if in.Template == "matryer" {
 		fmt.Fprintf(&cfg, "template-data:\n  with-resets: %v\n  stub-impl: %v\n", in.WithResets, in.StubImpl)
+	}
+	if in.Template == "testify" && (in.Unroll == "true" || in.Unroll == "false") {
+		fmt.Fprintf(&cfg, "template-data:\n  unroll-variadic: %s\n", in.Unroll)
 	}
 	cfg.WriteString("packages:\n  example.com/m/store:\n    interfaces:\n      Store:\n")
 	files[".mockery.yml"] = cfg.String()
@@ -190,8 +207,30 @@ func (c05) Run(c *Ctx, raw json.RawMessage) Case {
 		t.WriteString("func TestStress(t *testing.T) {\n\tvar bad atomic.Int64\n\tm := NewMockStore(t)\n")
 		// every goroutine registers its own expectation (through EXPECT()) right before each call
 		t.WriteString("\t_ = mock.Anything\n")
+		if in.Variadic && in.Shared {
+			matchers := "mock.Anything, mock.Anything"
+			if in.Unroll == "true" {
+				matchers = "mock.Anything, mock.Anything, mock.Anything, mock.Anything"
+			}
+			for _, mn := range in.Methods {
+				fmt.Fprintf(&t, "\tm.EXPECT().%s(%s).Run(func(id int, parts ...string) {\n\t\tif len(parts) != 3 { bad.Add(1) }\n\t\tfor _, p := range parts { if p != strconv.Itoa(id) { bad.Add(1) } }\n\t}).Return(0, nil)\n", mn, matchers)
+			}
+		}
 		t.WriteString("\tvar wg sync.WaitGroup\n\tstart := make(chan struct{})\n\tfor _, ops := range threads {\n\t\twg.Add(1)\n\t\tgo func(ops []cop) {\n\t\t\tdefer wg.Done()\n\t\t\t<-start\n\t\t\tfor _, o := range ops {\n\t\t\t\tswitch o.m {\n")
 		for i, mn := range in.Methods {
+			if in.Variadic && in.Shared {
+				fmt.Fprintf(&t, "\t\t\t\tcase %d:\n\t\t\t\t\ts := strconv.Itoa(o.x)\n\t\t\t\t\tr, err := m.%s(o.x, s, s, s)\n\t\t\t\t\tif r != 0 || err != nil { bad.Add(1) }\n", i, mn)
+				continue
+			}
+			if in.Variadic {
+				// three variadic arguments per call; Run (even ids) / RunAndReturn (odd ids) see them again
+				matchers := "mock.Anything"
+				if in.Unroll == "true" {
+					matchers = "mock.Anything, mock.Anything, mock.Anything"
+				}
+				fmt.Fprintf(&t, "\t\t\t\tcase %d:\n\t\t\t\t\ts := strconv.Itoa(o.x)\n\t\t\t\t\tif o.x%%2 == 0 {\n\t\t\t\t\t\tm.EXPECT().%s(o.x, %s).Run(func(id int, parts ...string) {\n\t\t\t\t\t\t\tif len(parts) != 3 { bad.Add(1) }\n\t\t\t\t\t\t\tfor _, p := range parts { if p != strconv.Itoa(id) { bad.Add(1) } }\n\t\t\t\t\t\t}).Return(o.x, nil).Once()\n\t\t\t\t\t} else {\n\t\t\t\t\t\tm.EXPECT().%s(o.x, %s).RunAndReturn(func(id int, parts ...string) (int, error) {\n\t\t\t\t\t\t\tif len(parts) != 3 { bad.Add(1) }\n\t\t\t\t\t\t\tfor _, p := range parts { if p != strconv.Itoa(id) { bad.Add(1) } }\n\t\t\t\t\t\t\treturn id, nil\n\t\t\t\t\t\t}).Once()\n\t\t\t\t\t}\n\t\t\t\t\tr, err := m.%s(o.x, s, s, s)\n\t\t\t\t\tif r != o.x || err != nil { bad.Add(1) }\n", i, mn, matchers, mn, matchers, mn)
+				continue
+			}
 			fmt.Fprintf(&t, "\t\t\t\tcase %d:\n\t\t\t\t\tif o.x%%2 == 0 {\n\t\t\t\t\t\tm.EXPECT().%s(o.x, strconv.Itoa(o.x)).Return(o.x, nil).Once()\n\t\t\t\t\t} else {\n\t\t\t\t\t\tm.EXPECT().%s(o.x, mock.Anything).RunAndReturn(func(id int, tag string) (int, error) {\n\t\t\t\t\t\t\tif strconv.Itoa(id) != tag { bad.Add(1) }\n\t\t\t\t\t\t\treturn id, nil\n\t\t\t\t\t\t}).Once()\n\t\t\t\t\t}\n\t\t\t\t\tr, err := m.%s(o.x, strconv.Itoa(o.x))\n\t\t\t\t\tif r != o.x || err != nil { bad.Add(1) }\n", i, mn, mn, mn)
 		}
 		t.WriteString("\t\t\t\t}\n\t\t\t}\n\t\t}(ops)\n\t}\n\tclose(start)\n\twg.Wait()\n")
@@ -207,6 +246,12 @@ func (c05) Run(c *Ctx, raw json.RawMessage) Case {
 		return Case{Oracle: fail("harness", "%v", err)}
 	}
 	tags := []string{"tmpl-" + in.Template, fmt.Sprintf("goroutines-%d", len(in.Threads))}
+	if in.Variadic {
+		tags = append(tags, "variadic-unroll-"+in.Unroll)
+		if in.Shared {
+			tags = append(tags, "shared-expectation")
+		}
+	}
 	if hasReset {
 		tags = append(tags, "resets")
 	}
